@@ -81,6 +81,8 @@ class pyBQM:
         except TypeError:
             zero = 0  # sometimes it cannot be constructed with no arguments
 
+        hash(v)  # an unhashable second label must raise before the first one is added
+
         # derive the linear types to match quadratic. This might not always
         # be what we want but it's as good a guess as any
         if u not in self.variables:
